@@ -220,9 +220,12 @@ pub fn judge_c14(u: &UriCase, p: &Probe) -> Judge {
 }
 
 pub fn run_c14(ctx: &Ctx) {
-    ctx.set_rule("proptest-generated target URIs (as C13) mapped through the hook verif_transport_url (the private function both clients call); result split by the harness's own splitter: ipp->http, ipps->https, port = explicit port else 631 for both schemes, user-info/host/path(empty==/)/query unchanged byte-for-byte; http/https unchanged. Non-trivial = scheme ipp/ipps and (IPv6 host or user-info or no port or query); distinct by URI string. The live part (what the clients really dial) is in C11.");
+    crate::c11::use_empty_trust_store();
+    ctx.set_rule("proptest-generated target URIs (as C13) mapped through the hook verif_transport_url (the private function both clients call); result split by the harness's own splitter: ipp->http, ipps->https, port = explicit port else 631 for both schemes, user-info/host/path(empty==/)/query unchanged byte-for-byte; http/https unchanged. Non-trivial = scheme ipp/ipps and (IPv6 host or user-info or no port or query); distinct by URI string. Plus live cases per run (40 quick / 400 thorough) through a loopback HTTP server with explicit ports, tying the hooked function to what both clients really dial (request line, Host header).");
     let (shards, per) = ctx.tier.pick((16, 2500), (16, 80000));
     run_prop(ctx, "transport-url", shards, per, uri_case, judge_c14, |u| u.to_json());
+    // live: what both clients really dial for ipp:// targets with explicit ports (request line, Host)
+    crate::c11::live_c14(ctx, ctx.tier.pick(40, 400));
 }
 
 pub fn replay_c14(ctx: &Ctx, _sub: &str, case: &Value) -> Judge {
